@@ -64,6 +64,20 @@ def raw_md(t, axis):
     return None if md is None else tuple(freeze(dict(m)) for m in md)
 
 
+_KNOWN_FIELDS = frozenset((
+    'type', 'table_id', 'create_date', 'generated_by', 'format_version', '_data', '_sample_ids',
+    '_observation_ids', '_sample_metadata', '_observation_metadata', '_sample_group_metadata',
+    '_observation_group_metadata', '_sample_index', '_obs_index'))
+
+
+def _extra_fields(t):
+    """any instance attribute this module does not know (a cache or memo added later) is part of the
+    concrete state too: an over-fine key only costs time, a too-coarse one merges states with different
+    futures"""
+    d = getattr(t, '__dict__', {})
+    return tuple(sorted((k, repr(v)[:300]) for k, v in d.items() if k not in _KNOWN_FIELDS))
+
+
 def concrete_key(t):
     d = t._data
     fmt = d.format
@@ -79,7 +93,7 @@ def concrete_key(t):
              t._sample_ids.dtype.str, tuple(map(str, t._sample_ids)),
              tuple(sorted((str(k), int(v)) for k, v in t._obs_index.items())),
              tuple(sorted((str(k), int(v)) for k, v in t._sample_index.items())),
-             raw_md(t, 'observation'), raw_md(t, 'sample'), t.type, t.table_id)
+             raw_md(t, 'observation'), raw_md(t, 'sample'), t.type, t.table_id, _extra_fields(t))
     return h64(parts)
 
 
